@@ -129,6 +129,11 @@ func ndBytesEqual(a, b []byte) bool { return string(a) == string(b) }
 // that what depends on it (offsets, lengths) is concrete on each path.
 func ndConcrete(x int) int { return x }
 
+// ndReaches: (symbolic only) some object reachable from root holds a slice or pointer into
+// buf's backing store. Natively false: the harness overwrites the buffer instead and
+// compares what it can observe.
+func ndReaches(root interface{}, buf []byte) bool { return false }
+
 // ndCopyBytes: a fresh copy of b.
 func ndCopyBytes(b []byte) []byte { return append([]byte{}, b...) }
 
